@@ -6,6 +6,10 @@
 // captured as wire bytes and scanned for the unique random marker that each private payload is (taint scan). The payload
 // store is compared before/after every inbound message. The real tlsAuthenticator is fed generated certificates and DID
 // documents.
+//
+// c15_widen_test.go holds the multi-step phases: known transactions re-delivered in TransactionList messages, transactions
+// re-using the payload hash of a private transaction, the node's own CreateTransaction over participant key situations,
+// and payload queries while the node's own DID document is deactivated/unresolvable.
 package c15
 
 import (
